@@ -175,5 +175,86 @@ def enc (S : Schema) (reg : Registry) (pkt : String) (vs : List Val) (acc : Byte
   let p ← S.find pkt
   encFields S reg p.fields vs p.fields vs acc
 
+/-! ### Decoding: the declared way to read a message back.  `call` decodes a nested packet. -/
+
+def takeN (n : Nat) (bs : Bytes) : Option (Bytes × Bytes) :=
+  if n ≤ bs.length then some (bs.take n, bs.drop n) else none
+
+def trimPad (p : Pad) (bs : Bytes) : Bytes :=
+  if p.left then bs.dropWhile (· = p.ch) else (bs.reverse.dropWhile (· = p.ch)).reverse
+
+/-- does key literal `k` denote the decoded key value `v`?  Integer keys are compared in the
+key field's width `kw` (so `40000` and the 16-bit pattern of `-25536` are the same key). -/
+def keyMatches (kw : Option Nat) (k : Key) (v : Val) : Bool :=
+  match k, v, kw with
+  | .int a, .int n, some w => a % 256 ^ w = n % 256 ^ w
+  | .str a, .str b, _ => a = b
+  | _, _, _ => false
+
+/-- byte width of the key field's type, `none` for a string key -/
+def keyWidthOf (fs : List Field) (key : String) : Option (Option Nat) :=
+  match fs.find? (·.name = key) with
+  | some f => if f.rep then none else
+    match f.kind with
+    | .scalar t => some (some t.width)
+    | .dyn => some none
+    | .fixed _ _ => some none
+    | _ => none
+  | none => none
+
+abbrev DCall := String → Bytes → Option (List Val × Bytes)
+
+/-- one non-repeated, non-match value -/
+def decPlain (S : Schema) (call : DCall) : FKind → Bytes → Option (Val × Bytes)
+  | .scalar t, bs | .lengthOf t _, bs | .checksum t _, bs => do
+    let (x, r) ← takeN t.width bs
+    pure (.int (decInt S.cfg.le x), r)
+  | .fixed n p, bs => do let (x, r) ← takeN n bs; pure (.str (trimPad p x), r)
+  | .dyn, bs => do
+    let (x, r) ← takeN S.cfg.strPfx.width bs
+    let (y, r') ← takeN (decInt S.cfg.le x) r
+    pure (.str y, r')
+  | .obj pkt, bs => do let (vs, r) ← call pkt bs; pure (.struct vs, r)
+  | .matchOn _ _, _ => none
+
+def decListN (S : Schema) (call : DCall) (k : FKind) : Nat → Bytes → Option (List Val × Bytes)
+  | 0, bs => some ([], bs)
+  | n + 1, bs => do
+    let (v, r) ← decPlain S call k bs
+    let (vs, r') ← decListN S call k n r
+    pure (v :: vs, r')
+
+/-- one field; `env` holds the (name, value) pairs decoded so far in this packet, in field order -/
+def decField (S : Schema) (call : DCall) (all : List Field) (env : List (String × Val)) (f : Field) (bs : Bytes) :
+    Option (Val × Bytes) :=
+  if f.rep then do
+    let (x, r) ← takeN S.cfg.listPfx.width bs
+    let (vs, r') ← decListN S call f.kind (decInt S.cfg.le x) r
+    pure (.list vs, r')
+  else
+    match f.kind with
+    | .matchOn key pairs => do
+      let kv ← env.lookup key
+      let kw ← keyWidthOf all key
+      let (_, pkt) ← pairs.find? fun (k, _) => keyMatches kw k kv
+      let (vs, r) ← call pkt bs
+      pure (.dyn pkt vs, r)
+    | k => decPlain S call k bs
+
+def decFields (S : Schema) (call : DCall) (all : List Field) : List Field → List (String × Val) → Bytes → Option (List Val × Bytes)
+  | [], _, bs => some ([], bs)
+  | f :: fs, env, bs => do
+    let (v, r) ← decField S call all env f bs
+    let (vs, r') ← decFields S call all fs (env ++ [(f.name, v)]) r
+    pure (v :: vs, r')
+
+/-- Read one message of packet `pkt` from the front of `bs`: its field values and the unread rest.
+`none` = the bytes are not a message of this packet (truncated input, unknown match key, …). -/
+def dec (S : Schema) : Nat → DCall
+  | 0 => fun _ _ => none
+  | fuel + 1 => fun pkt bs => do
+    let p ← S.find pkt
+    decFields S (dec S fuel) p.fields p.fields [] bs
+
 end Wire
 end FinProtoc
